@@ -386,6 +386,22 @@ def fam_azimuthal(ctx, rng):
                 hist.append((r, "mask-edit"))
                 if usable():
                     _mean_peak_check(ctx, az, "HvsrAzimuthal after a direct mask edit", f, r)
+    # the per-azimuth objects the result was built from remain the caller's: giving THEM another range, or building a
+    # second azimuthal result from them with another range, must leave this result's range and peaks alone
+    before = _peak_state(az)
+    r2, rk2 = gen_range(rng, f)
+    if rng.random() < 0.5:
+        hv[int(rng.integers(0, naz))].update_peaks_bounded(search_range_in_hz=r2)
+        how = "range of a source object updated"
+    else:
+        az2 = hvsrpy.HvsrAzimuthal(hv, list(az.azimuths))
+        az2.update_peaks_bounded(search_range_in_hz=r2)
+        how = "second result built from the same source objects"
+    hist.append((r2, "source-objects-reused"))
+    ctx.check(_peak_state(az) == before, "peaks-follow-own-range-only", f"{how}: the first result's search range / peaks / "
+              "masks changed", own_range=list(hist[-2][0]) if len(hist) >= 2 else None, other_range=list(r2), n_azimuths=naz)
+    for a, h in enumerate(az.hvsrs):        # (runs the class invariants of the result once more)
+        h.peak_frequencies
     ctx.describe(kind="HvsrAzimuthal", grid=gk, classes=classes, n_azimuths=naz, history=[x[0] for x in hist])
     nontrivial_sig(ctx, "HvsrAzimuthal", gk, classes[:2], f.size, [x[1] for x in hist])
 
